@@ -90,7 +90,7 @@ let read_env (path : string) : env =
   let c name = try Hashtbl.find consts name with Not_found -> [] in
   { e_proto_tbl = Hashtbl.find tables "proto"; e_http_tbl = Hashtbl.find tables "http";
     e_http_pre = c "http_pre"; e_http_post = c "http_post"; e_ssh_banner = c "ssh_banner";
-    e_ghost = c "ghost"; e_smb1_blob = c "smb1_blob"; e_smb2_blob = c "smb2_blob" }
+    e_ghost = c "ghost"; e_smb_neg = c "smb_neg"; e_smb_chal = c "smb_chal" }
 
 (* ---- configuration ---- *)
 let parse_ip (s : string) : ipaddr =
